@@ -8,7 +8,9 @@
 // triggered events / estimated event times, the handler and reporter call log, measure values, energy, contact
 // forces in the order reported — must be identical for
 //   solo                  the reference: S built and run once in this process,
-//   fresh-process         S run alone in a freshly exec'ed copy of this program (hashes come back over a pipe),
+//   fresh-process         S run alone in a freshly exec'ed copy of this program (hashes come back over a pipe); one
+//   / other-process       exec serves a batch of consecutive cases: the first is the first thing that process does,
+//                         the others run after other scenarios there (a history this process does not have),
 //   twice                 S built and run a second time (heap and stack scribbled in between),
 //   state-copy            S's System re-used with a new integrator, started from a copy of the initial State
 //                         (copy of a State realized to Acceleration / assignment over a State of another System),
@@ -67,8 +69,8 @@ static CaseSpec makeCase(const Args& a, long idx, Rng& r) {
 static std::unique_ptr<Scen> buildScen(const CaseSpec& cs) { std::unique_ptr<Scen> sc(new Scen()); sc->build(cs.scenSeed, cs.cyc, cs.kn, cs.forceInteg); return sc; }
 
 // ------------------------------------------------------------------------------------------------ fresh process
-static void emitTraj(const Traj& t) {
-    printf("DET1 %zu %llx\n", t.steps.size(), (unsigned long long)t.hOutcome);
+static void emitTraj(long idx, const Traj& t) {
+    printf("DET1 %ld %zu %llx\n", idx, t.steps.size(), (unsigned long long)t.hOutcome);
     for (auto& s : t.steps) {
         uint64_t tb; memcpy(&tb, &s.t, 8);
         printf("%llx %d %llx %llx %llx %llx %llx %llx %llx %llx\n", (unsigned long long)tb, s.status, (unsigned long long)s.hState, (unsigned long long)s.hDeriv, (unsigned long long)s.hMult,
@@ -77,34 +79,42 @@ static void emitTraj(const Traj& t) {
     printf("END %s\n", t.outcome.c_str());
     fflush(stdout);
 }
-static bool childTraj(long idx, Traj& out, std::string& err) {
+// Records computed by another process: a freshly exec'ed copy of this program runs the solo reference of 'count'
+// consecutive cases starting at 'first' (process start-up dominates the cost of a case, hence the batch). The first
+// case of a batch is the first thing that process does ("fresh-process"); the others have other scenarios before
+// them in that process, which is again a history the parent does not have ("other-process").
+struct ChildRecs { std::map<long, Traj> recs; std::map<long, std::string> errs; long batchFirst = -1; };
+static void runChild(long first, long count, ChildRecs& out) {
+    out.recs.clear(); out.errs.clear(); out.batchFirst = first;
+    auto failAll = [&](const std::string& e) { for (long i = first; i < first + count; ++i) if (!out.recs.count(i)) out.errs[i] = e; };
     int fds[2];
-    if (pipe(fds) != 0) { err = "pipe failed"; return false; }
+    if (pipe(fds) != 0) { failAll("pipe failed"); return; }
     fflush(stdout); fflush(stderr);
-    std::vector<std::string> av = g_argv; av.push_back("--only"); av.push_back(std::to_string(idx)); av.push_back("--emit"); av.push_back("1");
+    std::vector<std::string> av = g_argv; av.push_back("--only"); av.push_back(std::to_string(first)); av.push_back("--emit"); av.push_back(std::to_string(count));
     std::vector<char*> argv; for (auto& s : av) argv.push_back(const_cast<char*>(s.c_str())); argv.push_back(nullptr);
     pid_t pid = fork();
-    if (pid < 0) { err = "fork failed"; close(fds[0]); close(fds[1]); return false; }
+    if (pid < 0) { close(fds[0]); close(fds[1]); failAll("fork failed"); return; }
     if (pid == 0) { dup2(fds[1], 1); close(fds[0]); close(fds[1]); execv("/proc/self/exe", argv.data()); _exit(127); }
     close(fds[1]);
     std::string txt; char buf[4096]; ssize_t n;
     while ((n = read(fds[0], buf, sizeof buf)) > 0 || (n < 0 && errno == EINTR)) if (n > 0) txt.append(buf, (size_t)n);
     close(fds[0]);
     int status = 0; while (waitpid(pid, &status, 0) < 0 && errno == EINTR) {}
-    std::istringstream in(txt); std::string line; size_t ns = 0; bool header = false, end = false;
+    std::istringstream in(txt); std::string line; long cur = -1; size_t ns = 0; Traj t;
     while (std::getline(in, line)) {
-        if (!header) { unsigned long long ho; if (sscanf(line.c_str(), "DET1 %zu %llx", &ns, &ho) == 2) { header = true; out.hOutcome = ho; } continue; }
-        if (line.rfind("END", 0) == 0) { end = true; out.outcome = line.size() > 4 ? line.substr(4) : ""; break; }
+        if (cur < 0) { unsigned long long ho; long ci; if (sscanf(line.c_str(), "DET1 %ld %zu %llx", &ci, &ns, &ho) == 3) { cur = ci; t = Traj(); t.hOutcome = ho; } continue; }
+        if (line.rfind("END", 0) == 0) {
+            t.outcome = line.size() > 4 ? line.substr(4) : "";
+            if (t.steps.size() == ns) out.recs[cur] = t; else out.errs[cur] = "truncated record from the other process";
+            cur = -1; continue;
+        }
         unsigned long long tb, a, b, c, d, e, f, g, cu; int st;
-        if (sscanf(line.c_str(), "%llx %d %llx %llx %llx %llx %llx %llx %llx %llx", &tb, &st, &a, &b, &c, &d, &e, &f, &g, &cu) != 10) { err = "unparsable line from child: " + line; return false; }
+        if (sscanf(line.c_str(), "%llx %d %llx %llx %llx %llx %llx %llx %llx %llx", &tb, &st, &a, &b, &c, &d, &e, &f, &g, &cu) != 10) { out.errs[cur] = "unparsable line from the other process: " + line; cur = -1; continue; }
         StepRec s; uint64_t t64 = tb; memcpy(&s.t, &t64, 8); s.status = st; s.hState = a; s.hDeriv = b; s.hMult = c; s.hStats = d; s.hEvents = e; s.hMeas = f; s.hContact = g; s.cum = cu;
-        out.steps.push_back(s);
+        t.steps.push_back(s);
     }
-    if (!header || !end || out.steps.size() != ns) {
-        char b2[160]; snprintf(b2, sizeof b2, "child exited with status 0x%x (signal %d) after %zu of %zu steps", status, WIFSIGNALED(status) ? WTERMSIG(status) : 0, out.steps.size(), ns);
-        err = b2; return false;
-    }
-    return true;
+    char b2[200]; snprintf(b2, sizeof b2, "the other process ended with wait status 0x%x (signal %d) before delivering this case's record", status, WIFSIGNALED(status) ? WTERMSIG(status) : 0);
+    failAll(b2);
 }
 
 // ------------------------------------------------------------------------------------------------ comparison
@@ -137,14 +147,14 @@ static void checkCase(Ctx& c, long idx, Rng& r) {
     CaseSpec cs = makeCase(a, idx, r);
     const bool useChild = a.getInt("child", 1) != 0;
     const std::string only = a.get("sched", "");           // investigation aid: run one schedule only
-    // solo, twice and interleaved-noise run in every case; the child process in every 3rd case and two of the four
-    // remaining schedules per case (all of them with --allsched 1 or in the thorough tier): cost bound
-    const bool all = a.getInt("allsched", a.tier == "thorough" ? 1 : 0) != 0;
+    // every schedule runs in every case; --allsched 0 (cost knob) keeps solo, the other process, twice and
+    // interleaved-noise and rotates two of the four remaining schedules per case
+    const bool all = a.getInt("allsched", 1) != 0;
     auto rot = [&](int k) { return all || (idx % 4) == k || ((idx + 2) % 4) == k; };
     auto want = [&](const char* s) {
         if (!only.empty()) return only == s;
         std::string n = s;
-        if (n == "fresh-process") return all || idx % 3 == 0;
+        if (n == "fresh-process") return true;
         if (n == "state-copy") return rot(0);
         if (n == "after-noise") return rot(1);
         if (n == "twin-interleaved") return rot(2);
@@ -166,12 +176,19 @@ static void checkCase(Ctx& c, long idx, Rng& r) {
     if (c.wantSample()) c.sample(Json::obj().set("case", idx).set("scenario", sc0->toJson()).set("returned_steps", (long)ref.steps.size()).set("outcome", ref.outcome));
     c.cover(cell + "solo");
 
-    // ---- fresh process
+    // ---- another process
     if (useChild && want("fresh-process")) {
-        c.setPhase("fresh-process " + sc0->descr);
-        Traj ch; std::string err;
-        if (!childTraj(idx, ch, err)) c.viol("fresh-process:child-did-not-deliver-a-record", Json::obj().set("error", err).set("scenario", sc0->toJson()));
-        else { compareTraj(c, "fresh-process", *sc0, ref, ch, nullptr); c.cover(cell + "fresh-process"); }
+        static ChildRecs child;
+        if (!child.recs.count(idx) && !child.errs.count(idx)) {
+            long last = a.only >= 0 ? a.only + 1 : a.first + a.cases;
+            long cnt = std::max(1L, std::min((long)a.getInt("childbatch", 6), last - idx));
+            c.setPhase("other process: solo runs of cases " + std::to_string(idx) + ".." + std::to_string(idx + cnt - 1));
+            runChild(idx, cnt, child); c.obs("processes-started");
+        }
+        const char* sn = child.batchFirst == idx ? "fresh-process" : "other-process";
+        c.setPhase(std::string(sn) + " " + sc0->descr);
+        if (child.errs.count(idx)) c.viol(std::string(sn) + ":no-record-delivered", Json::obj().set("error", child.errs[idx]).set("scenario", sc0->toJson()));
+        else { compareTraj(c, sn, *sc0, ref, child.recs[idx], nullptr); c.cover(cell + sn); }
     }
 
     // ---- twice (heap and stack scribbled first)
@@ -317,13 +334,15 @@ int main(int argc, char** argv) {
     if (a.prop != "C46") { fprintf(stderr, "mon_determinism: unknown property %s\n", a.prop.c_str()); return 2; }
     // CablePath::Impl::realizeTopology() writes debugging text to std::cout; the protocol uses stdio
     std::cout.setstate(std::ios_base::failbit);
-    if (a.getInt("emit", 0)) {
-        // child of the fresh-process schedule: run the case's scenario alone, print its record, leave
-        Rng r(mix(a.seed, (uint64_t)a.only));
-        CaseSpec cs = makeCase(a, a.only, r);
-        std::unique_ptr<Scen> sc = buildScen(cs);
-        Run run(*sc, sc->s0); run.runToEnd();
-        emitTraj(run.traj);
+    if (a.getInt("emit", 0) > 0) {
+        // the other process of the fresh-process schedule: run the scenarios of cases only..only+emit-1 alone, print their records, leave
+        for (long idx = a.only; idx < a.only + a.getInt("emit", 0); ++idx) {
+            Rng r(mix(a.seed, (uint64_t)idx));
+            CaseSpec cs = makeCase(a, idx, r);
+            std::unique_ptr<Scen> sc = buildScen(cs);
+            Run run(*sc, sc->s0); run.runToEnd();
+            emitTraj(idx, run.traj);
+        }
         return 0;
     }
     Ctx c(a);
